@@ -226,11 +226,11 @@ def _reset_library_globals():
     """Module-level state of the library that must not leak between executions."""
     sched.reset_global_locks()
     m = sys.modules.get("more_executors._impl.futures.timeout")
-    if m is not None:
+    if m is not None and hasattr(m, "EXECUTOR_REF"):
         m.EXECUTOR_REF = None
     m = sys.modules.get("more_executors._impl.event")
-    if m is not None:
-        h = m.GLOBAL_HANDLER
+    h = getattr(m, "GLOBAL_HANDLER", None) if m is not None else None
+    if h is not None and hasattr(h, "events") and hasattr(h, "shutdown"):
         h.shutdown = False
         h.events = []
     for hook in _reset_hooks:
